@@ -321,8 +321,13 @@ def r3_inventory(a, tier):
     for c in a.p.classes.values():
         if c.module.name.startswith(SCOPE_EXCLUDE):
             continue
-        for name, ann in c.annotations.items():
-            if ann.startswith('ClassVar') and name in c.assigns and _is_mutable_container(c.assigns[name]):
+        is_record = any(b.split('.')[-1] in ('NamedTuple', 'TypedDict') for b in c.bases) or any(
+            'dataclass' in d for d in [dotted(x) for x in c.node.decorator_list])
+        for name in c.assigns:
+            ann = c.annotations.get(name, '')
+            # a container assigned in a class body is ONE object shared by all instances (a record field default is a per-field
+            # declaration and exempt), whether or not it is annotated ClassVar
+            if (ann.startswith('ClassVar') or not is_record) and _is_mutable_container(c.assigns[name]):
                 q = f'{c.qualname}.{name}'
                 rep.add({'classvar_container': q, 'reviewed': q in CLASSVAR_INVENTORY})
                 if q not in CLASSVAR_INVENTORY:
@@ -488,4 +493,50 @@ def r5_order_dependence(a, tier):
     return rep
 
 
-RULES = [r1_cache_key, r2_write_through, r3_inventory, r4_parse_is_readonly, r5_order_dependence]
+def r6_shared_config(a, tier):
+    rep = RuleReport(
+        'C10.R6',
+        'a model and the optimized copy it caches see one configuration: Grammar.optimized() memoises a shallow copy (copy(self): '
+        'the copy shares the _config object) and parse() runs on that copy, so `_config` may be REBOUND only while the grammar is '
+        'being constructed (__init__); every later change (the semantics setter, configure) must update the shared object in place - '
+        'a rebinding after the copy exists leaves the copy with the old configuration, and results then depend on whether a parse '
+        'happened before the change',
+        floor=3,
+    )
+    g = a.p.cls('tatsu.peg.base.Grammar')
+    opt = g.methods.get('optimized')
+    if opt is None:
+        raise AnalysisError('Grammar.optimized not found')
+    shallow = any(isinstance(n, ast.Call) and dotted(n.func) in ('copy', 'copy.copy') and n.args and norm(n.args[0]) == 'self' for n in walk_no_defs(opt.node))
+    cached = any(isinstance(n, ast.Assign) and any(norm(t) == 'self._optimized' for t in n.targets) for n in walk_no_defs(opt.node))
+    rep.add({'optimized_is_a_cached_shallow_copy': shallow and cached})
+    if not (shallow and cached):
+        rep.notes.append('Grammar.optimized() no longer caches a shallow copy: the sharing premise does not apply')
+        return rep
+    for c in [g.qualname, *a.ct.subclasses(g.qualname)]:
+        ci = a.p.classes.get(c)
+        if ci is None:
+            continue
+        for m in [f for f in a.p.functions.values() if f.cls is ci]:  # includes property setters (X.name.setter)
+            mname = m.name
+            for n in walk_no_defs(m.node):
+                tg = []
+                if isinstance(n, ast.Assign):
+                    tg = n.targets
+                elif isinstance(n, (ast.AnnAssign, ast.AugAssign)):
+                    tg = [n.target]
+                for t in tg:
+                    if isinstance(t, ast.Attribute) and t.attr == '_config' and norm(t.value) == 'self':
+                        ok = mname == '__init__'
+                        rep.add({'rebinds__config': m.qualname, 'during_construction': ok})
+                        if not ok:
+                            rep.fail(m.qualname, 'config-rebound', f'`{norm(n)[:80]}` rebinds Grammar._config outside __init__: the optimized copy '
+                                     f'cached by an earlier parse() keeps the old configuration object, so what this change sets (e.g. the '
+                                     f'semantics given to a later compile() of the cached model) is ignored by every later parse',
+                                     f'{m.module.relpath}:{n.lineno}')
+    sem = [f for f in a.p.functions.values() if f.cls is g and f.qualname.endswith('semantics.setter')]
+    rep.add({'semantics_setter_found': bool(sem)})
+    return rep
+
+
+RULES = [r1_cache_key, r2_write_through, r3_inventory, r4_parse_is_readonly, r5_order_dependence, r6_shared_config]
